@@ -1,7 +1,8 @@
 """C05 — glob returns exactly the paths the pattern denotes on the real tree.
 
 Proof part : Properties/C05.lean (spec `Denotes`, executable `denoteTop`/`DenotesB`, what is
-             proved between model and spec — see the file header — and the D14 / D17 witnesses).
+             proved between model and spec — see the file header — the D17 witnesses and the
+             `D14_fixed_witness` of the repaired D14).
 Tie        : K5 — `_GlobSplit.split` parts (literal / magic, dir_only, `**`/`***`, drive part,
              MATCHBASE part; compiled parts as regex TEXT) and the `iglob` event sequence
              (scandir calls interleaved with results) on generated real trees vs the model.
@@ -106,18 +107,12 @@ def split_stream(sr, drv, G, W, R, n):
                      'model': 'assumed by C05_partial'})
 
 
-def attribute(G, t, c, res: set, den: set, den_match: set):
+def attribute(G, t, c, res: set, den: set):
     """known-finding id(s) explaining `res != den`, by call-site signature; None = unexplained.
-    `den_match` = the spec evaluated with the code's `re.match` for magic segments (D14)."""
+    (D14 — `re.match` for magic segments — is repaired: a name ending in a newline that is
+    returned but not denoted is an unattributed violation again.)"""
     ids = []
     base = den
-    if res != base and den_match != den:
-        # D14: the only disagreement is what `re.match` (vs a full match) adds for names ending in \n
-        if all(any(comp.endswith('\n') for comp in x.split('/')) for x in (den_match ^ den)):
-            ids.append('KF-D14')
-            base = den_match
-    if res == base:
-        return ids
     extra, missing = res - base, base - res
     if extra and all(not os.path.lexists(os.path.join(t.root, x)) if not x.startswith('/') else not os.path.lexists(x)
                      for x in extra):
@@ -167,20 +162,17 @@ def run(ck: Check) -> int:
             fuel = 12
         res = {p for k, p in ev if k == 'y'}
         pe, _ = K.expansions(W, U, G, c.pats, c.flags, None)
-        outs = []
-        for full in (1, 0):
-            m = drv.ask(f'denotes {c.flags} 0 {full} {fuel} {t.enc} {t.cwd} {pe}')
-            if not m.startswith('ok'):
-                return
-            outs.append({common.dec(x[1:]) for x in m.split(' ')[1:] if x})
-        den, den_match = outs
+        m = drv.ask(f'denotes {c.flags} 0 1 {fuel} {t.enc} {t.cwd} {pe}')
+        if not m.startswith('ok'):
+            return
+        den = {common.dec(x[1:]) for x in m.split(' ')[1:] if x}
         stats['compared'] += 1
         if res == den:
             stats['equal'] += 1
             if res:
                 stats['equal_nonempty'] += 1
             return
-        ids = attribute(G, t, c, res, den, den_match)
+        ids = attribute(G, t, c, res, den)
         f = Failing('glob result set differs from the set of denoted paths', c.to_json(G, t),
                     {'denoted_not_returned': sorted(den - res)[:8]}, {'returned_not_denoted': sorted(res - den)[:8]},
                     'wcmatch/glob.py:587-602, 640-645, 741-742, 795')
